@@ -101,11 +101,27 @@ pub fn compare_exec(what: &str, exp: &Expect, got_out: &str, got: &Exec) -> Resu
 
 /// The full C01 judgement of one IR program.  `cli_sample`: also run the real binary.
 pub fn judge_program(prog: &Prog, ctx: &mut Ctx, cli_sample: bool, fault: Option<&str>) -> Judged {
+    match compare_with_reference(prog, ctx, cli_sample, fault, "C01")? {
+        Some(r) => {
+            let classes = construct_classes(&r.stats);
+            if r.stats.prints >= 1 && classes.len() >= 2 {
+                let src = render::text(prog, render::Style::Minimal);
+                ctx.nontrivial(src.as_bytes());
+            }
+            Ok(())
+        }
+        None => Ok(()),
+    }
+}
+
+/// Run FML (compile+interpret, serialize+load+interpret, evaluate_with, optionally the
+/// real binary) against the reference semantics. Ok(None): the case was excluded.
+pub fn compare_with_reference(prog: &Prog, ctx: &mut Ctx, cli_sample: bool, fault: Option<&str>, scratch_tag: &str) -> Result<Option<refsem::RunResult>, Violation> {
     ctx.eval();
     let r = refsem::run(prog, refsem::DEFAULT_FUEL);
     if r.outcome == Outcome::Fuel {
         ctx.exclude("reference-fuel");
-        return Ok(());
+        return Ok(None);
     }
     let src = render::text(prog, render::Style::Minimal);
     let case = || case_json(prog, &render::pretty(prog));
@@ -118,27 +134,27 @@ pub fn judge_program(prog: &Prog, ctx: &mut Ctx, cli_sample: bool, fault: Option
     let pipe = match fmlrun::pipeline(&src) {
         Ok(p) => p,
         Err(StageErr::Parse(m)) => {
-            return ctx.settle(Violation::new("parse-rejected", format!("generated program rejected by the parser: {}", m), case()))
+            return settle_none(ctx, Violation::new("parse-rejected", format!("generated program rejected by the parser: {}", m), case()))
         }
         Err(StageErr::Compile(m)) => {
-            return ctx.settle(Violation::new("compile-rejected", format!("generated program rejected by the compiler: {}", m), case()))
+            return settle_none(ctx, Violation::new("compile-rejected", format!("generated program rejected by the compiler: {}", m), case()))
         }
-        Err(StageErr::Serialize(m)) => return ctx.settle(Violation::new("serialize-failed", m, case())),
-        Err(StageErr::Load(m)) => return ctx.settle(Violation::new("load-failed", m, case())),
+        Err(StageErr::Serialize(m)) => return settle_none(ctx, Violation::new("serialize-failed", m, case())),
+        Err(StageErr::Load(m)) => return settle_none(ctx, Violation::new("load-failed", m, case())),
     };
     let fuel = 1000 + 400 * r.steps;
     let direct = fmlrun::run_stepped(&pipe.program, fuel);
     if let Err((k, d)) = compare_exec("compile+interpret", &exp, &direct.out, &direct.exec) {
-        return ctx.settle(Violation::new(&k, d, case()).with("stage", "direct").with("ref_fail", refkind.clone()));
+        return settle_none(ctx, Violation::new(&k, d, case()).with("stage", "direct").with("ref_fail", refkind.clone()));
     }
     let loaded = fmlrun::run_stepped(&pipe.loaded, fuel);
     if let Err((k, d)) = compare_exec("compile+serialize+load+interpret", &exp, &loaded.out, &loaded.exec) {
-        return ctx.settle(Violation::new(&k, d, case()).with("stage", "loaded").with("ref_fail", refkind.clone()));
+        return settle_none(ctx, Violation::new(&k, d, case()).with("stage", "loaded").with("ref_fail", refkind.clone()));
     }
     // the real fetch-execute loop (terminates: the stepped run did)
     let looped = fmlrun::run_loop(&pipe.loaded);
     if let Err((k, d)) = compare_exec("evaluate_with loop", &exp, &looped.out, &looped.exec) {
-        return ctx.settle(Violation::new(&k, d, case()).with("stage", "loop").with("ref_fail", refkind.clone()));
+        return settle_none(ctx, Violation::new(&k, d, case()).with("stage", "loop").with("ref_fail", refkind.clone()));
     }
 
     // classification
@@ -154,10 +170,6 @@ pub fn judge_program(prog: &Prog, ctx: &mut Ctx, cli_sample: bool, fault: Option
         ctx.label(if exp.ok { "fault:injected-not-reached" } else { "fault:injected-reached" });
         let _ = f;
     }
-    let nontrivial = r.stats.prints >= 1 && classes.len() >= 2;
-    if nontrivial {
-        ctx.nontrivial(src.as_bytes());
-    }
     ctx.sample(src.len(), || json!({"source": render::pretty(prog), "expected_output": r.out, "outcome": format!("{:?}", r.outcome)}));
 
     if cli_sample {
@@ -165,7 +177,7 @@ pub fn judge_program(prog: &Prog, ctx: &mut Ctx, cli_sample: bool, fault: Option
         let res = SCRATCH.with(|s| {
             let mut s = s.borrow_mut();
             if s.is_none() {
-                *s = Some(cli::Scratch::new("C01", "w"));
+                *s = Some(cli::Scratch::new(scratch_tag, "w"));
             }
             let sc = s.as_mut().unwrap();
             let f = sc.file("case.fml");
@@ -180,21 +192,26 @@ pub fn judge_program(prog: &Prog, ctx: &mut Ctx, cli_sample: bool, fault: Option
                     cli::Status::Exit(0) => Exec::Ok,
                     cli::Status::Exit(c) => Exec::Fail(format!("exit {}", c)),
                     cli::Status::Signal(s) => {
-                        return ctx.settle(
+                        return settle_none(ctx, 
                             Violation::new("native-crash", format!("fml run died on signal {}", s), case()).with("stage", "cli"),
                         )
                     }
                 };
                 if let Err((k, d)) = compare_exec("fml run (release binary)", &exp, &o.out_str(), &got) {
-                    return ctx.settle(Violation::new(&k, d, case()).with("stage", "cli").with("ref_fail", refkind.clone()));
+                    return settle_none(ctx, Violation::new(&k, d, case()).with("stage", "cli").with("ref_fail", refkind.clone()));
                 }
                 if exp.ok && !o.stderr.is_empty() {
-                    return ctx.settle(Violation::new("stderr-on-success", o.err_str(), case()).with("stage", "cli"));
+                    return settle_none(ctx, Violation::new("stderr-on-success", o.err_str(), case()).with("stage", "cli"));
                 }
             }
         }
     }
-    Ok(())
+    Ok(Some(r))
+}
+
+
+fn settle_none(ctx: &mut Ctx, v: Violation) -> Result<Option<refsem::RunResult>, Violation> {
+    ctx.settle(v).map(|_| None)
 }
 
 impl Property for C01 {
